@@ -4,7 +4,7 @@ EXTENDS FinamBase
 
 K(hasin, src, inown, pull, hasout, outown, data, off) ==
   [hasin |-> hasin, src |-> src, inown |-> inown, pull |-> pull, hasout |-> hasout,
-   outown |-> outown, data |-> data, off |-> off]
+   outown |-> outown, data |-> data, off |-> off, oprov |-> FALSE]
 Datas == {"imm", "pulled", "ininfo"}
 Cf(comps, order, fam) == [comps |-> comps, order |-> order, fam |-> fam]
 
@@ -28,7 +28,10 @@ Fan(u) == {Cf(<<a, b, c, d>>, o, "fan") : a \in HeadC, b \in TailC(1), c \in Mid
 Loop3(u) == {Cf(<<a, b, c>>, o, "loop3") : a \in Mid(3), b \in Mid(1), c \in {K(TRUE, 2, TRUE, p, TRUE, TRUE, d, 0) : p \in BOOLEAN, d \in Datas},
                                            o \in {<<1, 2, 3>>, <<3, 2, 1>>}}
 
+(* rings in which one component passes its output metadata to every connect call *)
+Ring2Prov(u) == {Cf(<<[a EXCEPT !.oprov = TRUE], b>>, o, "ring2prov") : a \in {x \in Mid(2) : ~x.outown}, b \in Mid(1), o \in Perm2}
+
 CSpace(f) ==
   CASE f = "ring2" -> Ring2(0) [] f = "chain3" -> Chain3(0) [] f = "ring3" -> Ring3(0)
-    [] f = "fan" -> Fan(0) [] f = "loop3" -> Loop3(0)
+    [] f = "fan" -> Fan(0) [] f = "loop3" -> Loop3(0) [] f = "ring2prov" -> Ring2Prov(0)
 =============================================================================
